@@ -31,6 +31,7 @@ fn replay<E: Engine>(dump: &str, out: &str, known: &Known, opts: ReplayOpts) {
     let nparts = (lines.len() + chunk.max(1) - 1) / chunk.max(1);
     let cur: Vec<AtomicU64> = (0..nparts).map(|_| AtomicU64::new(u64::MAX)).collect();
     let stop = AtomicBool::new(false);
+    let mut failed = false;
     let hang_secs = hang_limit();
     std::thread::scope(|sc| {
         let mut hs = vec![];
@@ -38,6 +39,14 @@ fn replay<E: Engine>(dump: &str, out: &str, known: &Known, opts: ReplayOpts) {
             let o = opts.clone();
             let cur = &cur;
             hs.push(sc.spawn(move || {
+                // (the slot is released even if this thread dies of a harness panic: that is a tool failure, not a hang)
+                struct Release<'a>(&'a AtomicU64);
+                impl<'a> Drop for Release<'a> {
+                    fn drop(&mut self) {
+                        self.0.store(u64::MAX, Ordering::Relaxed);
+                    }
+                }
+                let _release = Release(&cur[ti]);
                 let mut rp: Replayer<E> = Replayer::new(known, o);
                 let mut bad = 0u64;
                 for (li, line) in part.iter().enumerate() {
@@ -87,10 +96,17 @@ fn replay<E: Engine>(dump: &str, out: &str, known: &Known, opts: ReplayOpts) {
             }
         });
         for h in hs {
-            parts.push(h.join().expect("replay thread"));
+            match h.join() {
+                Ok(p) => parts.push(p),
+                Err(_) => failed = true,
+            }
         }
         stop.store(true, Ordering::Relaxed);
     });
+    if failed {
+        eprintln!("a replay thread of the harness panicked (a failure of the harness, e.g. a projection that no longer matches the library's private state)");
+        std::process::exit(101);
+    }
     // merge the per-thread reports; equal-knowledge classes are compared across threads too
     let mut total = Report::default();
     let mut conv: std::collections::HashMap<String, ConvEntry> = std::collections::HashMap::new();
@@ -237,7 +253,11 @@ fn flagval(flags: &[&str], name: &str) -> usize {
 
 fn main() {
     // panics of the library are caught and treated as observations; keep stderr quiet
-    std::panic::set_hook(Box::new(|_| {}));
+    // (the hook only remembers where the panic was raised: core::catch tells the library's panics from the harness's own)
+    std::panic::set_hook(Box::new(|info| {
+        let f = info.location().map(|l| l.file().to_string()).unwrap_or_default();
+        crate::core::LAST_PANIC_FILE.with(|l| *l.borrow_mut() = f);
+    }));
     let args: Vec<String> = std::env::args().collect();
     if args.len() < 2 {
         eprintln!("usage: harness replay <engine> <dump> <out.json> <known_findings.json> [--persist] [--no-oblig] [--laws]");
